@@ -85,6 +85,10 @@ static DEFAULT_CAPACITY: usize = 10_000;
 
 impl<Db: Database> Storage<Db> {
     pub fn new() -> Self {
+        #[cfg(isographlabs_isograph_verif)]
+        if let Some(capacity) = verif_hooks::capacity_override() {
+            return Storage::new_with_capacity(capacity);
+        }
         Storage::new_with_capacity(DEFAULT_CAPACITY.try_into().unwrap())
     }
 
@@ -622,3 +626,24 @@ pub fn intern_ref<Db: Database, T: Clone + Hash + DynEq + 'static>(
 // We make a somewhat arbitrary choice and choose to wrap interned values.
 #[derive(Hash)]
 struct InternValueWrapper<T>(T);
+
+/// Verification hook: lets a simulator choose the capacity of the LRU of top-level calls
+/// for databases created through `Storage::new()` / `Default` on the current thread, so
+/// that garbage collection actually evicts in small simulated projects. Compiled only with
+/// `--cfg isographlabs_isograph_verif`.
+#[cfg(isographlabs_isograph_verif)]
+pub mod verif_hooks {
+    use std::{cell::Cell, num::NonZeroUsize};
+
+    thread_local! {
+        static CAPACITY_OVERRIDE: Cell<Option<NonZeroUsize>> = const { Cell::new(None) };
+    }
+
+    pub fn set_capacity_override(capacity: Option<NonZeroUsize>) {
+        CAPACITY_OVERRIDE.with(|c| c.set(capacity));
+    }
+
+    pub fn capacity_override() -> Option<NonZeroUsize> {
+        CAPACITY_OVERRIDE.with(|c| c.get())
+    }
+}
